@@ -1,7 +1,7 @@
 import Pyc.Model.Output
 
-/-! Python-faithful model of `pycardano/coinselection.py`: `LargestFirstSelector.select` (lines 78-131) and
-`RandomImproveMultiAsset` (lines 152-338), transliterated statement by statement, quirks included.
+/-! Python-faithful model of `pycardano/coinselection.py`: `LargestFirstSelector.select` (lines 79-136) and
+`RandomImproveMultiAsset` (lines 157-346), transliterated statement by statement, quirks included.
 
 * A Python list is a `List`; `list.append` is `++ [x]`; the model is pure, so the caller's pool can not be altered
   (in Python `sorted(utxos)` / `list(utxos)` make the working copies; the harness snapshots the pool).
@@ -65,25 +65,25 @@ def feeOf (env : Env) (includeFee : Bool) : Option Int := if includeFee then env
 def requestSum (fee : Int) (outputs : List Output) : Value :=
   outputs.foldl (fun acc o => Value.add acc o.amount) ⟨fee, []⟩
 
-/-- `max_input_count and len(selected) > max_input_count` (Python truthiness: `None` and `0` mean "no limit") -/
-def overTruthy (limit : Option Int) (n : Nat) : Bool :=
-  match limit with
-  | none => false
-  | some l => l != 0 && decide ((n : Int) > l)
-
-/-- `max_input_count is not None and len(selected) > max_input_count` (`_improve`: here `0` *is* a limit) -/
-def overNotNone (limit : Option Int) (n : Nat) : Bool :=
+/-- `max_input_count is not None and len(selected) > max_input_count`: tested *after* an input was appended
+(largest-first loop, phase 1 of random-improve).  Every integer is a limit, `0` included ("no input may be selected"). -/
+def overLimit (limit : Option Int) (n : Nat) : Bool :=
   match limit with
   | none => false
   | some l => decide ((n : Int) > l)
 
-/-- `max_input_count - len(selected) if max_input_count else None`: the limit handed to the min-change top-up.
-When the first phase ended exactly at the limit this is `some 0`, which every later truthiness test reads as
-"no limit" (known finding KF-C14-limit). -/
+/-- `max_input_count is not None and len(selected) >= max_input_count`: tested by `_improve` *before* it appends -/
+def atLimit (limit : Option Int) (n : Nat) : Bool :=
+  match limit with
+  | none => false
+  | some l => decide ((n : Int) ≥ l)
+
+/-- `max_input_count - len(selected) if max_input_count is not None else None`: the limit handed to the min-change
+top-up is the remaining budget; a remaining budget of `0` means "no further input". -/
 def topUpLimit (limit : Option Int) (n : Nat) : Option Int :=
   match limit with
   | none => none
-  | some l => if l = 0 then none else some (l - (n : Int))
+  | some l => some (l - (n : Int))
 
 /-! `min_lovelace_post_alonzo` computes on its own `Value(1000000, amt.multi_asset)` when the coin is 0 (since the
 repair ba568fb it no longer writes into the `change` it is given), so `change.coin` read afterwards by both
@@ -117,10 +117,10 @@ def lfLoop (total : Value) (limit : Option Int) : List UTxO → List UTxO → Va
   | [], sel, amt => if Value.le total amt then .ok ⟨[], sel, amt⟩ else .error .insufficient
   | u :: rest, sel, amt =>
     if Value.le total amt then .ok ⟨u :: rest, sel, amt⟩
-    else if overTruthy limit (sel.length + 1) then .error .maxInputs
+    else if overLimit limit (sel.length + 1) then .error .maxInputs
     else lfLoop total limit rest (sel ++ [u]) (Value.add amt u.amount)
 
-/-- `select(..., respect_min_utxo=False)` with `max_fee` already determined: lines 87-106 -/
+/-- `select(..., respect_min_utxo=False)` with `max_fee` already determined: lines 88-107 -/
 def lfBase (fee : Int) (utxos : List UTxO) (outputs : List Output) (limit : Option Int) : Except SelErr LfState :=
   lfLoop (requestSum fee outputs) limit (sortAsc utxos).reverse [] ⟨0, []⟩
 
@@ -245,7 +245,7 @@ def improveStep (limit : Option Int) (ideal upper : Value) (rem sel : List UTxO)
     | none => .stop .crash stream
     | some d =>
       if d ≤ 0 then .stop .done stream
-      else if overNotNone limit sel.length then .stop .caught stream       -- tested *before* appending
+      else if atLimit limit sel.length then .stop .done stream             -- `return`: tested *before* appending
       else match nextRandom rem stream with
         | .err .crash st => .stop .crash st
         | .err _ st => .stop .caught st
@@ -277,13 +277,13 @@ def improve (limit : Option Int) (ideal upper : Value) : Nat → List UTxO → L
       if take then improve limit ideal upper fuel (rem.eraseIdx i) (sel ++ [u]) (Value.add amt u.amount) st'
       else improve limit ideal upper fuel (rem.eraseIdx i) sel amt st'
 
-/-- Phase 1: `for r in request_sorted: _random_select_subset(...); if max_input_count and len(selected) > ...` -/
+/-- Phase 1: `for r in request_sorted: _random_select_subset(...); if max_input_count is not None and len(selected) > ...` -/
 def phase1 (limit : Option Int) : List Value → St → Except SelErr St
   | [], s => .ok s
   | r :: rs, s =>
     match subsetLoop r (s.rem.length + 1) s with
     | .error e => .error e
-    | .ok s' => if overTruthy limit s'.sel.length then .error .maxInputs else phase1 limit rs s'
+    | .ok s' => if overLimit limit s'.sel.length then .error .maxInputs else phase1 limit rs s'
 
 /-- `[utxo for utxo in remaining if utxo not in new_selected]`.  `in` is identity-or-`==`; for a pool with
 pairwise distinct inputs (the domain of C14) that is equality of the input reference. -/
@@ -302,7 +302,7 @@ def phase2 (limit : Option Int) : List Value → St → Except SelErr St
     | .fuel => .error .fuel
     | _ => phase2 limit rs ⟨dropSelected s.rem (res.sel.drop s.sel.length), res.sel, res.amt, res.stream⟩
 
-/-- `select(..., respect_min_utxo=False)` with `max_fee` already determined: lines 277-313 -/
+/-- `select(..., respect_min_utxo=False)` with `max_fee` already determined: lines 281-317 -/
 def riBase (fee : Int) (utxos : List UTxO) (outputs : List Output) (limit : Option Int) (stream : List Nat) :
     Except SelErr St :=
   let sorted := sortDesc (splitByAsset (requestSum fee outputs))
